@@ -412,4 +412,19 @@ func (group *Group) delIn() {
 	group.stat.VideoCodec = ""
 	group.stat.VideoWidth = 0
 	group.stat.VideoHeight = 0
+
+	// 输入流结束时，把合并发送缓存中剩余的数据发送出去
+	if group.rtmpMergeWriter != nil {
+		group.rtmpMergeWriter.Flush()
+	}
+	// 仍然在线的sub session不再等待上一次输入流的视频关键帧，和“还没有推流时加入的sub session”保持一致
+	for session := range group.rtmpSubSessionSet {
+		session.ShouldWaitVideoKeyFrame = false
+	}
+	for session := range group.httpflvSubSessionSet {
+		session.ShouldWaitVideoKeyFrame = false
+	}
+	for session := range group.rtspSubSessionSet {
+		session.ShouldWaitVideoKeyFrame = false
+	}
 }
